@@ -105,7 +105,12 @@ var qUIDs = []string{"0", "1", "2", "33", "1000", "65534", "4294967295", "12345"
 var qComms = []string{"bash", "sshd", "python3", "curl", "ls", "sh"}
 var qExes = []string{"/usr/bin/bash", "/usr/sbin/sshd", "/usr/bin/python3.9", "/usr/bin/curl", "/bin/ls", "/usr/bin/sh"}
 var qSyscalls = []int{2, 59, 42, 43, 49, 87, 82, 257, 44, 45, 288, 0, 1, 999, 90, 92, 105}
-var qPaths = []string{`"/etc/passwd"`, `"/tmp/x"`, `2F746D702F612062`, `"/"`, `"/home/u/.ssh/authorized_keys"`, `(null)`}
+var qPaths = []string{`"/etc/passwd"`, `"/tmp/x"`, `2F746D702F612062`, `"/"`, `"/home/u/.ssh/authorized_keys"`, `(null)`,
+	`"x"`, `"./a"`, `"../b/c"`, `"dir/file"`, `6120622F63`, `""`, `"."`}
+
+// SELinux contexts with three to eight colon-separated parts (MLS ranges with categories add parts), and things that are not contexts
+var qContexts = []string{"unconfined_u:unconfined_r:unconfined_t:s0-s0:c0.c1023", "system_u:object_r:etc_t:s0", "system_u:system_r:init_t", "u:r:t:s0:c0-s15:c0.c1023",
+	"u:r:t:s0:c0.c5,c7-s15:c0.c1023:x:y", "=unconfined", "?", "a:b", "::::::", "kernel", "u:r:t:s0-s0:c0.c1023"}
 var qModes = []string{"0100644", "040755", "020620", "060660", "010644", "0120777", "0140755", "0104755", "bad", "0"}
 
 func pick(v uint32, shift uint, xs []string) string { return xs[int(v>>shift)%len(xs)] }
@@ -131,18 +136,18 @@ var qTemplates = []qTemplate{
 		if v&(1<<30) != 0 {
 			sysno = int(v>>3) % 335 // any x86_64 syscall number
 		}
-		return fmt.Sprintf(`arch=c000003e syscall=%d success=%s exit=%s a0=7ffd5c a1=0 a2=1b6 a3=24 items=%d ppid=%d pid=%d auid=%s uid=%s gid=%s euid=%s suid=%s fsuid=%s egid=%s sgid=%s fsgid=%s tty=pts0 ses=%d comm="%s" exe="%s" subj=unconfined_u:unconfined_r:unconfined_t:s0-s0:c0.c1023 key=%s`,
+		return fmt.Sprintf(`arch=c000003e syscall=%d success=%s exit=%s a0=7ffd5c a1=0 a2=1b6 a3=24 items=%d ppid=%d pid=%d auid=%s uid=%s gid=%s euid=%s suid=%s fsuid=%s egid=%s sgid=%s fsgid=%s tty=pts0 ses=%d comm="%s" exe="%s" subj=%s key=%s`,
 			sysno, succ, exit, int(v>>8)%4, 1+int(v>>9)%50, 100+int(v>>10)%900,
 			pick(v, 11, qUIDs), pick(v, 13, qUIDs), pick(v, 15, qUIDs), pick(v, 17, qUIDs), pick(v, 13, qUIDs), pick(v, 13, qUIDs), pick(v, 15, qUIDs), pick(v, 15, qUIDs), pick(v, 15, qUIDs),
-			1+int(v>>19)%9, pick(v, 21, qComms), pick(v, 21, qExes), key)
+			1+int(v>>19)%9, pick(v, 21, qComms), pick(v, 21, qExes), qContexts[int(v>>24)%16%len(qContexts)*int(v>>31)], key)
 	}},
 	// 1 CWD
 	{tCWD, func(v uint32) string { return "cwd=" + pick(v, 0, qPaths) }},
 	// 2 PATH
 	{tPATH, func(v uint32) string {
 		nt := []string{"NORMAL", "PARENT", "CREATE", "DELETE", "UNKNOWN"}[int(v>>4)%5]
-		return fmt.Sprintf(`item=%d name=%s inode=%d dev=fd:00 mode=%s ouid=%s ogid=%s rdev=00:00 obj=system_u:object_r:etc_t:s0 nametype=%s`,
-			int(v)%3, pick(v, 7, qPaths), 1000+int(v>>9)%5000, pick(v, 12, qModes), pick(v, 16, qUIDs), pick(v, 19, qUIDs), nt)
+		return fmt.Sprintf(`item=%d name=%s inode=%d dev=fd:00 mode=%s ouid=%s ogid=%s rdev=00:00 obj=%s nametype=%s`,
+			int(v)%3, pick(v, 7, qPaths), 1000+int(v>>9)%5000, pick(v, 12, qModes), pick(v, 16, qUIDs), pick(v, 19, qUIDs), qContexts[(1+int(v>>22)%16%(len(qContexts)-1))*int(v>>31)], nt)
 	}},
 	// 3 EXECVE
 	{tEXECVE, func(v uint32) string {
@@ -608,6 +613,12 @@ type qGroup struct {
 	touched bool     // Data() was called on the messages before
 }
 
+//go:norace
+func (g *qGroup) setTouched() { g.touched = true }
+
+//go:norace
+func (g *qGroup) isTouched() bool { return g.touched }
+
 type qEvent struct {
 	ev         *aucoalesce.Event
 	err        error
@@ -868,7 +879,7 @@ func ExecQPlan(p *QPlan, trace bool) *core.Result {
 				}
 				for _, gi := range own {
 					g := groups[gi]
-					if !g.touched {
+					if !g.isTouched() {
 						continue // the oracle never makes the first Data() call itself
 					}
 					for mi, m := range g.msgs {
@@ -901,7 +912,7 @@ func ExecQPlan(p *QPlan, trace bool) *core.Result {
 						viol("panic", "CoalesceMessages", "CoalesceMessages panicked: "+pan)
 						continue
 					}
-					if !g.touched {
+					if !g.isTouched() {
 						h.Rec(evQOp, int64(oi), -1, int64(gi), 0, "")
 					}
 					got := canonEvent(ev, err)
@@ -909,9 +920,9 @@ func ExecQPlan(p *QPlan, trace bool) *core.Result {
 						// judged after the run, when the reference exists
 						h.Rec(evQGot, int64(gi), int64(oi), 0, 0, got)
 					} else if got != g.refEv {
-						viol("coalesce-not-repeatable", "event", fmt.Sprintf("CoalesceMessages on group %d (call by task %d op %d, messages coalesced before: %v) returned\n  %s\nthe same lines coalesced in isolation give\n  %s", gi, ti, oi, g.touched, got, g.refEv))
+						viol("coalesce-not-repeatable", "event", fmt.Sprintf("CoalesceMessages on group %d (call by task %d op %d, messages coalesced before: %v) returned\n  %s\nthe same lines coalesced in isolation give\n  %s", gi, ti, oi, g.isTouched(), got, g.refEv))
 					}
-					g.touched = true
+					g.setTouched()
 					if ev != nil {
 						events = append(events, &qEvent{ev: ev, err: err, g: gi, snapshot: got})
 					}
@@ -997,7 +1008,7 @@ func ExecQPlan(p *QPlan, trace bool) *core.Result {
 						continue
 					}
 					g := groups[own[op.G%len(own)]]
-					g.touched = true
+					g.setTouched()
 				}
 				checkAll(oi)
 			}
@@ -1036,7 +1047,7 @@ func ExecQPlan(p *QPlan, trace bool) *core.Result {
 			}
 		}
 		for gi, g := range groups {
-			if !g.touched {
+			if !g.isTouched() {
 				continue
 			}
 			for mi, m := range g.msgs {
